@@ -8,6 +8,7 @@ import (
 	"os"
 	"runtime"
 	"sort"
+	"strconv"
 	"strings"
 	"sync"
 	"sync/atomic"
@@ -686,18 +687,29 @@ func c18Jobs(seed uint64) []c18Job {
 func c18EngineHistory(c *mon.Ctx, h *c18Hist) {
 	prev := runtime.GOMAXPROCS(h.Procs)
 	defer runtime.GOMAXPROCS(prev)
-	jobs := c18Jobs(c.Seed)
+	// Every history has its own jobs (fresh keys, fresh data), and in every other
+	// history the concurrent executions come FIRST and the sequential reference
+	// verdicts are computed afterwards: whatever the engine or the package keeps
+	// between executions is then met by concurrent first uses.
+	jobs := c18Jobs(c.Seed ^ (h.N+1)*0x9e3779b97f4a7c15)
 	seq := make([]string, len(jobs))
 	e := interpreter.NewEngine()
 	okN := 0
-	for i := range jobs {
-		seq[i] = jobs[i].run(interpreter.NewEngine())
-		if seq[i] == "ok" {
-			okN++
+	sequential := func() {
+		for i := range jobs {
+			seq[i] = jobs[i].run(interpreter.NewEngine())
+			if seq[i] == "ok" {
+				okN++
+			}
 		}
+		c.CountN("engine:jobs", int64(len(jobs)))
+		c.CountN("engine:jobs-accepted-sequentially", int64(okN))
 	}
-	c.CountN("engine:jobs", int64(len(jobs)))
-	c.CountN("engine:jobs-accepted-sequentially", int64(okN))
+	concurrentFirst := h.N%2 == 1
+	if !concurrentFirst {
+		sequential()
+	}
+	got := make([][]string, h.Goroutines) // concurrent-first: verdicts are compared once the reference exists
 	// The workers share nothing with the monitor while they run (no atomics, no
 	// mutex: those would order their executions for the race detector); each
 	// keeps its findings in its own slot, read after all have finished.
@@ -712,20 +724,38 @@ func c18EngineHistory(c *mon.Ctx, h *c18Hist) {
 			defer wg.Done()
 			r := prng.New(c.Seed, "C18-eng", h.N<<8|uint64(g))
 			mine := perG[g]
+			var verdicts []string
 			<-start
 			for k := 0; k < h.OpsEach; k++ {
 				i := r.Intn(len(jobs))
-				if got := jobs[i].run(e); got != seq[i] {
-					mine[fmt.Sprintf("job %d", i)] = fmt.Sprintf("sequential %q, concurrent %q", seq[i], got)
+				v := jobs[i].run(e)
+				if concurrentFirst {
+					verdicts = append(verdicts, fmt.Sprintf("%d|%s", i, v))
+				} else if v != seq[i] {
+					mine[fmt.Sprintf("job %d", i)] = fmt.Sprintf("sequential %q, concurrent %q", seq[i], v)
 				}
 				if k%4 == 3 {
 					runtime.Gosched()
 				}
 			}
+			got[g] = verdicts
 		}(g)
 	}
 	close(start)
 	waitOrDeadlock(c, &wg, "engine")
+	if concurrentFirst {
+		sequential()
+		for g := range got {
+			for _, iv := range got[g] {
+				is, v, _ := strings.Cut(iv, "|")
+				i, _ := strconv.Atoi(is)
+				if v != seq[i] {
+					perG[g][fmt.Sprintf("job %d", i)] = fmt.Sprintf("sequential (afterwards) %q, concurrent %q", seq[i], v)
+				}
+			}
+		}
+		c.Count("engine:concurrent-before-sequential")
+	}
 	for _, m := range perG {
 		for k, v := range m {
 			diffs[k] = v
